@@ -52,6 +52,7 @@ type rpEvent struct {
 	N     string
 	Err   string // tid term of the error
 	Pos   string // position before the call
+	Line  int    // script line at which the terms are defined
 }
 
 func (r *ReplaySpec) getValues() []string {
@@ -63,6 +64,51 @@ func (r *ReplaySpec) getValues() []string {
 		out = append(out, in.Terms...)
 	}
 	return out
+}
+
+// getValuesAt also asks for the read events (chunk sizes of opaque Read
+// calls) that are defined before script line `prefix`.
+func (r *ReplaySpec) getValuesAt(prefix int) []string {
+	out := r.getValues()
+	if r == nil {
+		return out
+	}
+	rd := r.data()
+	for _, ev := range rd.events {
+		if ev.Line < prefix {
+			out = append(out, ev.Reach, ev.N)
+		}
+	}
+	return out
+}
+
+// smallModelHints: constraints preferring short slices / streams, used for a
+// second query whose model is easier to replay.
+func (r *ReplaySpec) smallModelHints() []string {
+	var out []string
+	if r == nil {
+		return nil
+	}
+	for _, in := range r.inputs {
+		switch in.Kind {
+		case "bytes", "ptrbytes":
+			out = append(out, app("bvsle", in.Terms[0], bvLit(64, 40)), app("bvsle", in.Terms[1], bvLit(64, 40)))
+		case "string", "ptrstring":
+			out = append(out, app("bvsle", in.Terms[0], bvLit(64, 40)))
+		case "reader":
+			out = append(out, app("bvsle", in.Terms[0], bvLit(64, 40)))
+		}
+	}
+	return out
+}
+
+// noteRead records an opaque Read call (for scripted short reads in the replay).
+func (vc *VC) noteRead(reach, n string) {
+	if vc.replay == nil {
+		return
+	}
+	rd := vc.replay.data()
+	rd.events = append(rd.events, rpEvent{Kind: "read", Reach: reach, N: n, Line: len(vc.lines)})
 }
 
 type replayData struct {
@@ -109,6 +155,11 @@ func (vc *VC) makeReplay(fc *FuncContract, fn *ssa.Function, params []*SV, st *S
 			switch {
 			case len(l) == 1:
 				rd.inputs = append(rd.inputs, rpInput{name, "ptrscalar", t, []string{sel2(st.H[l[0].heap()], sv.C[0], sv.C[1])}})
+			case isString(et):
+				base := sel2(st.H["Href"], sv.C[0], sv.C[1])
+				off := sel2(st.H["H64"], sv.C[0], cellIdx(sv.C[1], 1))
+				ln := sel2(st.H["H64"], sv.C[0], cellIdx(sv.C[1], 2))
+				rd.inputs = append(rd.inputs, rpInput{name, "ptrstring", t, append([]string{ln}, cells(st.H["H8"], base, off, streamCells)...)})
 			case isByteSlice(et):
 				base := sel2(st.H["Href"], sv.C[0], sv.C[1])
 				off := sel2(st.H["H64"], sv.C[0], cellIdx(sv.C[1], 1))
@@ -351,8 +402,10 @@ func clampLen(v string, max int64) (int64, bool) {
 
 const harnessPrelude = `
 type govcReader struct {
-	data []byte
-	pos  int
+	data   []byte
+	pos    int
+	chunks []int // sizes of the first Read calls, from the solver's model
+	calls  int
 }
 
 func (r *govcReader) Read(p []byte) (int, error) {
@@ -362,7 +415,12 @@ func (r *govcReader) Read(p []byte) (int, error) {
 	if r.pos >= len(r.data) {
 		return 0, io.EOF
 	}
-	n := copy(p, r.data[r.pos:])
+	lim := len(p)
+	if r.calls < len(r.chunks) && r.chunks[r.calls] >= 1 && r.chunks[r.calls] < lim {
+		lim = r.chunks[r.calls]
+	}
+	r.calls++
+	n := copy(p[:lim], r.data[r.pos:])
 	r.pos += n
 	return n, nil
 }
@@ -391,6 +449,21 @@ func buildHarness(rd *replayData, vals []string) (src string, ok bool, why strin
 	}
 	var callArgs []string
 	var post []string
+	// chunk sizes of the opaque Read calls the model executed (they follow the inputs in vals)
+	chunkList := ""
+	{
+		nin := 0
+		for _, in := range rd.inputs {
+			nin += len(in.Terms)
+		}
+		for k := nin; k+1 < len(vals); k += 2 {
+			if vals[k] == "true" {
+				if c, ok := clampLen(vals[k+1], 1<<16); ok {
+					chunkList += fmt.Sprintf("%d,", c)
+				}
+			}
+		}
+	}
 	for _, in := range rd.inputs {
 		if idx+len(in.Terms) > len(vals) {
 			return "", false, "model has too few values"
@@ -424,6 +497,19 @@ func buildHarness(rd *replayData, vals []string) (src string, ok bool, why strin
 			}
 			fmt.Fprintf(b, "\t%s := %s(%s)\n", in.Name, h.typeStr(in.Type), lit)
 			callArgs = append(callArgs, in.Name)
+		case "ptrstring":
+			n, ok := clampLen(v[0], streamCells)
+			if !ok {
+				return "", false, "bad string length"
+			}
+			lit, ok := bytesLit(v[1:], int(n))
+			if !ok {
+				return "", false, "bad string bytes"
+			}
+			et := in.Type.Underlying().(*types.Pointer).Elem()
+			fmt.Fprintf(b, "\t%s := new(%s)\n\t*%s = %s(%s)\n", in.Name, h.typeStr(et), in.Name, h.typeStr(et), lit)
+			callArgs = append(callArgs, in.Name)
+			post = append(post, fmt.Sprintf("\tfmt.Printf(\"GOVC-DEREF %s %%q\\n\", string(*%s))\n", in.Name, in.Name))
 		case "bytes", "ptrbytes":
 			n, ok1 := clampLen(v[0], 1<<16)
 			c, ok2 := clampLen(v[1], 1<<16)
@@ -487,7 +573,7 @@ func buildHarness(rd *replayData, vals []string) (src string, ok bool, why strin
 			if !ok {
 				return "", false, "bad stream bytes"
 			}
-			fmt.Fprintf(b, "\t%s := &govcReader{data: make([]byte, %d)}\n\tcopy(%s.data, %s)\n", in.Name, n, in.Name, lit)
+			fmt.Fprintf(b, "\t%s := &govcReader{data: make([]byte, %d), chunks: []int{%s}}\n\tcopy(%s.data, %s)\n", in.Name, n, chunkList, in.Name, lit)
 			callArgs = append(callArgs, in.Name)
 			post = append(post, fmt.Sprintf("\tfmt.Printf(\"GOVC-CONSUMED %s %%d\\n\", %s.pos)\n", in.Name, in.Name))
 		case "writer":
@@ -647,7 +733,7 @@ func comparePrediction(o *Obligation, rd *replayData, out string) (bool, string)
 	// ask the solver for the predicted outputs in the same model: re-run with
 	// the inputs pinned to the model values
 	vals := parseGetValue(o.Output)
-	in := o.Replay.getValues()
+	in := o.Replay.getValuesAt(o.Prefix)
 	var pins []string
 	for i, t := range in {
 		if i < len(vals) {
